@@ -8,9 +8,12 @@ remove`; (c) a whole `SliceFinder.search`: the oracle answers (which index the r
 at each iteration) are read off the real run through a recording `dict` installed as `sf.costs`, and
 the model replays `trial`* / `best` on them: per-trial outcome, the cache (key -> nslices, flops, size,
 valid) and the outcome of `best` must coincide (tie-breaks among equal scores are not compared).
-Oracle (implementation only): the returned `(ix_sl, cost)` versus the real tree sliced by a
-`remove_ind` chain, the specified targets evaluated on that tree, the forbidden set, and the same
-postconditions on `tree.slice(...)`.
+Oracle (implementation only): (1) the returned `(ix_sl, cost)` versus the real tree sliced by a
+`remove_ind` chain, the specified targets evaluated on that tree, the forbidden set; (2) `tree.slice(...)`
+itself for already sliced / projected receivers x reslice x inplace x target kinds x allow_outer: receiver
+identity / untouched, figures of the returned tree = fresh tree sliced by hand on its `sliced_inds`, every
+specified target on the returned tree ("on top of the current number of slices" for target_slices, overhead
+relative to the tree the search starts from); (3) slice_and_reconfigure(_forest) non-inplace.
 """
 
 import json
@@ -65,7 +68,8 @@ ASSUMPTIONS = [
     "trees built by from_path (trees produced by simulated_anneal are the lead's finding 7o)",
 ]
 RULE = ("random networks over index kinds {bond,hyper,dangling,out1,outk,all,repeated,batch} x random trees x "
-        "0-2 already sliced/projected indices x target kind(s)/value x allow_outer in {True,False,'only'} x "
+        "0-3 already sliced/projected indices x reslice x inplace x target kind(s)/value x allow_outer in "
+        "{True,False,'only'} x "
         "objective x temperature x seed x repeats; non-trivial = >= 3 tensors and a search that returned a "
         "non-empty slicing or raised; distinct by content hash")
 BUDGET = {"quick": 600, "thorough": 3000}
@@ -100,7 +104,15 @@ def gen_case(rng, tier):
     if "overhead" in kinds:
         q = rng.choice([1, 2, 4, 8])
         tg["overhead"] = [rng.randint(max(1, q // 2), rng.choice([2, 4, 16]) * q), q]
+    reslice = rng.random() < 0.45
+    if reslice and not any(pj is None for _, pj in pre) and inds and rng.random() < 0.8:
+        # make sure re-slicing has something to undo: at least one genuinely sliced index
+        free = [ix for ix in inds if ix not in [i for i, _ in pre]]
+        if free:
+            pre.append([rng.choice(free), None])
     return {"net": net.json(), "tree": tree, "pre": pre, "targets": tg,
+            "reslice": reslice, "inplace": rng.random() < 0.5,
+            "sar": rng.random() < (0.12 if tier == "quick" else 0.08),
             "allow_outer": rng.choice([True, True, False, False, "only"]),
             "minimize": rng.choice(OBJECTIVES), "temperature": rng.choice([0.01, 0.01, 0.3, 2.0]),
             "seed": rng.randrange(1 << 30), "repeats": rng.choice([1, 2, 4, 8, 16]),
@@ -247,24 +259,166 @@ def oracle(case, obs, net, tree):
     bad = targets_hold(case, obs["m0"], obs["flops0"], real["nslices"], real["total_flops"], real["size"])
     if bad:
         return ("target:" + "+".join(bad), real)
-    # tree.slice(...) with the same parameters: same postconditions
-    kw = finder_kwargs(case)
-    try:
-        t2 = tree.slice(max_repeats=case["repeats"], **kw)
-    except tuple(ERR) as e:
-        return ("slice-raises-while-search-returns", ERR[type(e)])
-    us = gen.unsym(net)
-    pre = {ix for ix, _ in case["pre"]}
-    new = {us[i] for i in t2.sliced_inds} - pre
-    if case["allow_outer"] is False and new & out:
-        return ("slice:forbidden-chosen", sorted(new & out))
-    if case["allow_outer"] == "only" and new - out:
-        return ("slice:forbidden-chosen", sorted(new - out))
-    bad = targets_hold(case, obs["m0"], obs["flops0"], int(t2.nslices), int(t2.total_flops()),
-                       int(t2.max_size()))
-    if bad:
-        return ("slice:target:" + "+".join(bad), None)
     return None
+
+
+class _Hang(Exception):
+    pass
+
+
+# calls that ran into the CPU limit so far (a call that does not return is outside the property; after a few
+# of them the expensive oracle is switched off for the rest of the run so that the budget is kept)
+_LIMIT_HITS = {"slice": 0, "sar": 0}
+
+
+def _with_cpu_limit(seconds, fn):
+    """Run fn() under a CPU-time limit (SIGVTALRM; the check's own wall-clock alarm uses SIGALRM)."""
+    import signal
+
+    def _h(sig, frm):
+        raise _Hang()
+    old = signal.signal(signal.SIGVTALRM, _h)
+    signal.setitimer(signal.ITIMER_VIRTUAL, seconds)
+    try:
+        return fn()
+    finally:
+        signal.setitimer(signal.ITIMER_VIRTUAL, 0)
+        signal.signal(signal.SIGVTALRM, old)
+
+
+def _snapshot(t):
+    return (tuple((k, si.project) for k, si in t.sliced_inds.items()), int(t.nslices))
+
+
+def _by_hand(net, case, t2):
+    """The fresh (never sliced) tree of the case, sliced / projected by hand on exactly the indices the
+    returned tree says it is sliced on."""
+    ref = gen.real_tree(ctg, net, case["tree"])
+    for ix, si in t2.sliced_inds.items():
+        if si.project is None:
+            ref.remove_ind_(ix)
+        else:
+            ref.remove_ind_(ix, project=si.project)
+    return ref
+
+
+def slice_oracle(case, net, tree, counts=None):
+    """`tree.slice(...)` itself, through every option combination the property quantifies over: the tree may
+    already be sliced / projected (`case["pre"]`), reslice in {False, True}, inplace in {False, True}, any of
+    the three target kinds, allow_outer in {True, False, 'only'}. Checked on the *returned* tree:
+      * it is the receiver iff inplace; a non-inplace call leaves the receiver as it was;
+      * its figures are those of the fresh tree sliced by hand on exactly its `sliced_inds`;
+      * every specified target holds on it -- size <= target_size; nslices >= target_slices x (number of slices
+        before the call: "on top of the current number of slices", with or without reslice); total flops <=
+        target_overhead x the flops of the tree the search started from (the receiver, or, with reslice, the
+        fully un-sliced tree);
+      * the newly chosen indices avoid the forbidden set.
+    A call that raises is outside the property."""
+    if _LIMIT_HITS["slice"] >= 3:
+        return None
+    reslice, inplace = bool(case.get("reslice", False)), bool(case.get("inplace", False))
+    us = gen.unsym(net)
+    out = set(net.output)
+    recv = tree.copy()
+    before = _snapshot(recv)
+    m0 = int(recv.nslices)
+    start = gen.real_tree(ctg, net, case["tree"]) if reslice else tree
+    flops_start = int(start.total_flops())
+    kw = finder_kwargs(case)
+    tag = "slice(reslice=%s,inplace=%s)" % (reslice, inplace)
+    try:
+        t2 = _with_cpu_limit(10, lambda: recv.slice(max_repeats=case["repeats"], reslice=reslice,
+                                                     inplace=inplace, **kw))
+    except tuple(ERR) as e:
+        if counts is not None:
+            counts("slice_raises:" + ERR[type(e)])
+        return None
+    except _Hang:
+        _LIMIT_HITS["slice"] += 1
+        if counts is not None:
+            counts("slice_cpu_limit")
+        return None
+    if counts is not None:
+        counts("slice_returns:reslice=%s,inplace=%s,presliced=%s" % (reslice, inplace, m0 > 1 or bool(case["pre"])))
+    if (t2 is recv) != inplace:
+        return (tag + ":identity", None)
+    if not inplace and _snapshot(recv) != before:
+        return (tag + ":receiver-modified", [before, _snapshot(recv)])
+    now = {us[i] for i in t2.sliced_inds}
+    pre = {ix for ix, _ in case["pre"]}
+    if not reslice and not pre <= now:
+        return (tag + ":lost-previous-slices", sorted(pre - now))
+    new = now if reslice else now - pre
+    if case["allow_outer"] is False and new & out:
+        return (tag + ":forbidden-chosen", sorted(new & out))
+    if case["allow_outer"] == "only" and new - out:
+        return (tag + ":forbidden-chosen", sorted(new - out))
+    ref = _by_hand(net, case, t2)
+    real = {"nslices": int(t2.nslices), "total_flops": int(t2.total_flops()), "size": int(t2.max_size())}
+    hand = {"nslices": int(ref.nslices), "total_flops": int(ref.total_flops()), "size": int(ref.max_size())}
+    if real != hand:
+        return (tag + ":figures-differ-from-tree-sliced-by-hand", {"returned": real, "by_hand": hand})
+    bad = targets_hold(case, m0, flops_start, real["nslices"], real["total_flops"], real["size"])
+    if bad:
+        return (tag + ":target:" + "+".join(bad), {"returned": real, "sliced": sorted(now), "m0": m0,
+                                                   "flops_start": flops_start})
+    return None
+
+
+def sar_oracle(case, net, tree, counts=None):
+    """`slice_and_reconfigure` / `_forest`, non-inplace: the returned tree meets target_size, the receiver is
+    left alone, and the returned tree's figures are those of its own structure sliced by hand."""
+    if not case.get("sar") or "size" not in case["targets"] or _LIMIT_HITS["sar"] >= 3:
+        return None
+    import random
+    rr = random.Random(case["seed"])
+    forest = rr.random() < 0.3
+    target = max(case["targets"]["size"], 1)
+    recv = tree.copy()
+    before = _snapshot(recv)
+    opts = dict(target_size=target, step_size=2, max_repeats=2, allow_outer=True if case["allow_outer"] == "only"
+                else case["allow_outer"], reslice=bool(case.get("reslice", False)), minimize=case["minimize"])
+    try:
+        if forest:
+            t2 = _with_cpu_limit(5, lambda: recv.slice_and_reconfigure_forest(
+                num_trees=2, parallel=False, reconf_opts={"subtree_size": 4, "maxiter": 3}, **opts))
+        else:
+            t2 = _with_cpu_limit(5, lambda: recv.slice_and_reconfigure(
+                reconf_opts={"subtree_size": 4, "maxiter": 3, "seed": case["seed"]}, **opts))
+    except _Hang:
+        _LIMIT_HITS["sar"] += 1
+        if counts is not None:
+            counts("sar_cpu_limit")
+        return None
+    except Exception as e:      # no valid slicing: outside the property
+        if counts is not None:
+            counts("sar_raises:" + type(e).__name__)
+        return None
+    if counts is not None:
+        counts("sar_returns:" + ("forest" if forest else "plain"))
+    tag = "slice_and_reconfigure_forest" if forest else "slice_and_reconfigure"
+    if t2 is recv or _snapshot(recv) != before:
+        return (tag + ":receiver-modified", None)
+    if int(t2.max_size()) > target:
+        return (tag + ":target:size", {"max_size": int(t2.max_size()), "target": target})
+    # figures of the returned tree versus its own path re-built and sliced by hand
+    ref = ctg.ContractionTree.from_path(net.sym_inputs(), net.sym_output(), net.sym_sizes(),
+                                        ssa_path=t2.get_ssa_path())
+    for ix, si in t2.sliced_inds.items():
+        if si.project is None:
+            ref.remove_ind_(ix)
+        else:
+            ref.remove_ind_(ix, project=si.project)
+    real = {"nslices": int(t2.nslices), "total_flops": int(t2.total_flops()), "size": int(t2.max_size())}
+    hand = {"nslices": int(ref.nslices), "total_flops": int(ref.total_flops()), "size": int(ref.max_size())}
+    if real != hand:
+        return (tag + ":figures-differ-from-tree-sliced-by-hand", {"returned": real, "by_hand": hand})
+    return None
+
+
+def full_oracle(case, obs, net, tree, counts=None):
+    return oracle(case, obs, net, tree) or slice_oracle(case, net, tree, counts) or \
+        sar_oracle(case, net, tree, counts)
 
 
 # --------------------------------------------------------------------------------------------
@@ -424,7 +578,7 @@ def check_case(ctx, drv, case):
     nontrivial = len(net.inputs) >= 3 and (obs["status"] != "ok" or len(obs["ix_sl"]) >= 1)
     ctx.case(case, nontrivial=nontrivial)
 
-    fail = oracle(case, obs, net, tree)
+    fail = full_oracle(case, obs, net, tree, ctx.count)
     if fail is not None:
         ctx.violation({"site": "SliceFinder.search/tree.slice", "kind": fail[0].split(":")[0]},
                       {"case": case, "observed": {k: v for k, v in obs.items()
@@ -461,7 +615,7 @@ def search(ctx):
             break
         case = gen_case(ctx.rng, "thorough")
         obs, net, tree, sf = observe(case)
-        fail = oracle(case, obs, net, tree)
+        fail = full_oracle(case, obs, net, tree)
         if fail is not None:
             ctx.violation({"site": "SliceFinder.search/tree.slice", "kind": fail[0].split(":")[0]},
                           {"case": case, "failure": fail}, f"slice finder: {fail[0]}: {fail[1]}")
@@ -477,4 +631,4 @@ def replay(ctx, obj):
         return True
     case = obj["case"]
     obs, net, tree, sf = observe(case)
-    return oracle(case, obs, net, tree) is None
+    return full_oracle(case, obs, net, tree) is None
